@@ -249,8 +249,6 @@ def disabled(ctx, si, payload):
         os.chdir(d)
         try:
             cfg = build_config(spec)
-            if spec.get("never_occulted"):
-                cfg.simulation.target.source_obst = 600.0
             for outname in ("out.fits", "results.out"):
                 out = os.path.join(d, outname)
                 _AUDIT["events"].clear()
@@ -294,7 +292,9 @@ def run(ctx):
     # a geometry in which most kept events emerge below the tau tables' 0.1 deg floor (their
     # low-angle branch): reference run only — the defect class it targets (an already written
     # column changing later) shows in the fault-free run
-    ref_only = [({"mode": "Diffuse", "n": 60, "limb_deg": 1e-4, "cone_deg": 0.05}, "lowbeta.fits")]
+    ref_only = [({"mode": "Diffuse", "n": 60, "limb_deg": 1e-4, "cone_deg": 0.05}, "lowbeta.fits"),
+                # staged writing when no trajectory survives: the geometry stage still completes
+                ({"mode": "Target", "n": 300, "never_occulted": True}, "empty.fits"), ({"mode": "Diffuse", "n": 0}, "empty0.fits")]
     if T:
         configs += [
             ({"mode": "Diffuse", "n": 40, "radio": False}, "results.out"),
